@@ -147,6 +147,9 @@ import "math"
 var verifVals []uint64
 var verifPos int
 
+// function replacements of the obligation being replayed (see replay.go, nativeReplacements)
+var verifReplaceOn = map[string]bool{}
+
 func verifNext() uint64 {
 	if verifPos >= len(verifVals) {
 		panic("VERIF-REPLAY-EXHAUSTED")
